@@ -991,6 +991,8 @@ class Curve(BaseCurve):
 
         """
         assert isinstance(other, self.__class__)
+        if other.weights is not None:
+            return self.__fit_rational_curve(other, nodes)
         vectora, vectorb = tuple(self.knotvector), tuple(other.knotvector)
         if self.weights is None and other.weights is None:
             lstsq = heavy.LeastSquare.spline2spline
@@ -1006,13 +1008,34 @@ class Curve(BaseCurve):
             np.moveaxis(other.ctrlpoints, 0, -1), np.dot(materror, other.ctrlpoints)
         )
         error = np.max(np.abs(error))
-        if other.weights is not None:
-            error += np.dot(other.weights, np.dot(materror, other.ctrlpoints))
-            weights = np.dot(transmat, weightsb)
-            ctrlpoints = [point / weig for point, weig in zip(ctrlpoints, weights)]
-            self.weights = weights
         self.ctrlpoints = ctrlpoints
         return error
+
+    def __fit_rational_curve(self, other: Curve, nodes: Tuple[float] = None) -> float:
+        """Fits a rational curve ``other = A/W`` by projecting the numerator ``A``
+        and the denominator ``W``, which are splines, on this knotvector.
+
+        With ``D = A'/W'`` the new curve, ``C - D = ((A - A') - D * (W - W'))/W``,
+        so the returned error bounds the integral of the squared deviation.
+        """
+        vectora, vectorb = tuple(self.knotvector), tuple(other.knotvector)
+        numer, denom = other.fraction()
+        lstsq = heavy.LeastSquare.spline2spline
+        transmat, materror = lstsq(vectorb, vectora, nodes)
+        transmat = np.array(transmat)
+        weights = np.dot(transmat, denom.ctrlpoints)
+        points = np.dot(transmat, numer.ctrlpoints)
+        errornum = np.dot(
+            np.moveaxis(numer.ctrlpoints, 0, -1), np.dot(materror, numer.ctrlpoints)
+        )
+        errornum = np.max(np.abs(errornum))
+        errorden = np.dot(denom.ctrlpoints, np.dot(materror, denom.ctrlpoints))
+        self.weights = weights
+        ctrlpoints = [point / weig for point, weig in zip(points, weights)]
+        self.ctrlpoints = ctrlpoints
+        maxpoint = norm(ctrlpoints) ** 2
+        minweight = min(other.weights)
+        return 2 * (errornum + maxpoint * abs(errorden)) / minweight**2
 
     def fit_function(self, function: Callable, nodes: Tuple[float] = None) -> None:
         """Finds the control points such this curve keeps as near as
